@@ -2,12 +2,22 @@
 
 Workload: 1-4 functions with event / MQTT / webhook triggers (shared and distinct event types and
 topics, optional filter expressions, several decorators, kwargs=); bodies sleep, call task.executor,
-fire an event, set a state and call a recording service.  Stimuli carry unique ids and arrive
-back-to-back, a few passes apart or while earlier runs still sleep; some runs are cancelled.
+fire an event, set a state and call a recording service (registered without / with optional / with ONLY
+response support; called as ``domain.service(...)`` or ``service.call(...)``, with or without explicit
+return_response / blocking).  Stimuli carry unique ids and arrive back-to-back, a few passes apart or while
+earlier runs still sleep; some runs are cancelled.  Event payloads occasionally carry an additional key with an
+ordinary identifier as name (``name``, ``func``, ``self``, ``args``, ...).  0-2 further listeners are tasks
+started at start-up that sit in a loop of ``task.wait_until(<kind>_trigger=...)`` on an event type / topic /
+webhook id that decorators (and the other waiter) use too: such a listener unsubscribes itself while the
+message is still being fanned out to the others.  Filters may contain a sub-expression that suspends
+(``task.sleep(0)``), so that the evaluations for two messages of a burst overlap.
 
 Oracle: per decorator, runs == filter(stimuli) as a sequence (no loss, duplication or reordering),
 each run in its own task, kwargs == payload (+ decorator kwargs); everything a run emits carries a
 context whose parent is the triggering event's context; event.fire emits exactly its parameters.
+A waiting task must be handed (with exactly the message's arguments, at most once, in order) every matching
+message that is the first one after it demonstrably sat in task.wait_until (the loop went idle or 50 passes
+went by since it announced the call); what arrives while it is between two calls is don't-care.
 """
 
 from __future__ import annotations
@@ -23,44 +33,73 @@ PROPERTY = "C08"
 LEVEL = "exploration"
 RULE = (
     "seeded generation of (script with 1-4 functions x 1-3 event/mqtt/webhook trigger decorators with optional "
-    "filters, timed sequence of <=20/30 stimuli with unique ids incl. bursts, stalls, cancellations); distinct = "
-    "scenario digest; non-trivial = at least two stimuli delivered to one decorator while an earlier run of "
-    "that function was still alive"
+    "filters (some with a suspending sub-expression), bodies whose service call goes to a service without / with "
+    "optional / with ONLY response support in either call form, 0-2 start-up tasks looping in task.wait_until on "
+    "event types / topics / webhook ids shared with decorators and with each other, timed sequence of <=20/30 "
+    "stimuli with unique ids incl. bursts, stalls, cancellations, event payloads with an additional identifier-named "
+    "key); distinct = scenario digest; non-trivial = at least two stimuli delivered to one decorator while an "
+    "earlier run of that function was still alive"
 )
 ASSUMPTIONS = [
     "HA core dispatches bus events, MQTT messages (fake broker) and webhooks (HA's real dispatcher) in call order",
     "webhook ids are shared between decorators and functions like event types and topics (pyscript keeps one "
     "Home Assistant registration per id and fans out; the note in the documentation only excludes sharing an id "
     "with a Home Assistant automation)",
-    "order is judged per decorator; filters that suspend are not generated",
+    "order is judged per decorator; a filter may suspend (task.sleep(0)), every filter then suspends equally long, "
+    "so the arrival order is the order the filters finish in",
     "a run cancelled by the harness is exempt from the 'reaches its end' check, nothing else is",
+    "a task.wait_until listener only has to see a message when it demonstrably was inside the call when the message "
+    "arrived: its last marker before the message is 'about to call wait_until', the loop went idle (clock jump) or "
+    ">= 50 passes went by since, and no other qualifying message arrived in between; everything it is handed must "
+    "still be a qualifying message, once, in order, with the message's arguments. Its filters never raise",
+    "additional event payload keys are ordinary identifiers that differ from n/kind/id, from the keys of kwargs= and "
+    "from trigger_type/event_type/context (what wins on such a clash is not decided by the property); in the half "
+    "of the runs with spec.steer set they come from a pool of three plain names and filters do not suspend",
+    "the response-capable services are called in the combinations Home Assistant accepts (no return_response "
+    "together with blocking=False, none for a service without responses); the returned response is not judged here",
 ]
 TIERS = {
     "quick": {"runs": 2000, "chunk": 75, "max_ops": 20},
     "thorough": {"runs": 50000, "chunk": 250, "max_ops": 30},
 }
 REACH_PROBES = ["same_type_two_functions", "filter_rejected", "filter_raised", "overlap", "burst3",
-                "run_cancelled", "executor_in_body", "ctx_parent_checked"]
-SHRINK_LISTS = [["ops"], ["spec", "funcs"], ["spec", "funcs", "*", "decs"], ["spec", "funcs", "*", "body"]]
+                "run_cancelled", "executor_in_body", "ctx_parent_checked",
+                "call_response_only_implicit", "call_response_explicit", "call_via_service_call", "call_nonblocking",
+                "ctx_parent_checked_response_only", "waiter_shares_target_with_decorator", "two_waiters_same_target",
+                "waiter_delivery_required", "waiter_got", "waiter_missed_between_calls", "suspending_filter_burst",
+                "payload_extra_key", "payload_extra_key_delivered"]
+SHRINK_LISTS = [["ops"], ["spec", "funcs"], ["spec", "funcs", "*", "decs"], ["spec", "funcs", "*", "body"],
+                ["spec", "waiters"]]
 
 EVENT_TYPES = ["ev_a", "ev_b", "ev_c"]
 TOPICS = ["t/a", "t/b", "t/+/x"]
 KINDS = ["a", "b", "7"]
+# names an event payload may use for one more key: ordinary identifiers, all of them fine as keyword arguments of
+# ``def f(**kw)``
+XKEYS_PLAIN = ["name", "value", "data"]
+XKEYS = XKEYS_PLAIN + ["func", "func_name", "self", "args", "kwargs", "ast_ctx", "task_unique", "hass_context", "cls"]
+CALL_DEFAULT = {"svc": "none", "form": "direct", "rr": None, "blocking": None}
+SVC_NAME = {"none": "record", "opt": "record_opt", "only": "record_only"}
+WAIT_MIN_PASSES = 50
 
 
 # ------------------------------------------------------------------ filters
-def gen_filter(rng: random.Random, kind: str):
+def gen_filter(rng: random.Random, kind: str, susp_ok: bool = False):
     """A filter as a small tree; printed per trigger kind, evaluated on the payload dict."""
     roll = rng.random()
     if roll < 0.45:
         return None
     if roll < 0.65:
-        return ["n", rng.choice([">", ">=", "<", "=="]), rng.randint(0, 3)]
-    if roll < 0.8:
-        return ["kind", rng.choice(["==", "!="]), rng.choice(KINDS)]
-    if roll < 0.9:
-        return ["intkind", rng.choice([">", "<"]), rng.randint(0, 8)]  # int(kind): raises for 'a'/'b'
-    return ["and", ["n", ">=", rng.randint(0, 2)], ["kind", "!=", rng.choice(KINDS)]]
+        flt = ["n", rng.choice([">", ">=", "<", "=="]), rng.randint(0, 3)]
+    elif roll < 0.8:
+        flt = ["kind", rng.choice(["==", "!="]), rng.choice(KINDS)]
+    elif roll < 0.9:
+        flt = ["intkind", rng.choice([">", "<"]), rng.randint(0, 8)]  # int(kind): raises for 'a'/'b'
+    else:
+        flt = ["and", ["n", ">=", rng.randint(0, 2)], ["kind", "!=", rng.choice(KINDS)]]
+    if rng.random() < 0.12 and susp_ok:
+        flt = ["susp", flt]  # suspends once before it looks at the message
+    return flt
 
 
 def filter_src(flt, kind: str) -> str:
@@ -79,7 +118,13 @@ def filter_src(flt, kind: str) -> str:
         return f"int({var('kind')}) {flt[1]} {flt[2]}"
     if flt[0] == "and":
         return f"({filter_src(flt[1], kind)} and {filter_src(flt[2], kind)})"
+    if flt[0] == "susp":
+        return f"(task.sleep(0) is None and {filter_src(flt[1], kind)})"
     raise ValueError(flt)
+
+
+def _suspends(flt) -> bool:
+    return flt is not None and (flt[0] == "susp" or (flt[0] == "and" and (_suspends(flt[1]) or _suspends(flt[2]))))
 
 
 _REL = {">": lambda a, b: a > b, ">=": lambda a, b: a >= b, "<": lambda a, b: a < b,
@@ -95,6 +140,8 @@ def filter_eval(flt, data: dict) -> tuple[bool, bool]:
             return bool(_REL[flt[1]](data["kind"], flt[2])), False
         if flt[0] == "intkind":
             return bool(_REL[flt[1]](int(data["kind"]), flt[2])), False
+        if flt[0] == "susp":
+            return filter_eval(flt[1], data)
         if flt[0] == "and":
             left, r1 = filter_eval(flt[1], data)
             if r1:
@@ -108,8 +155,44 @@ def filter_eval(flt, data: dict) -> tuple[bool, bool]:
 
 
 # ------------------------------------------------------------------ generation
+def gen_call(rng: random.Random) -> list:
+    """A service call of a run: which kind of service, which call form, which of Home Assistant's call options."""
+    svc = rng.choice(["none", "none", "opt", "only", "only"])
+    form = rng.choice(["direct", "direct", "service.call"])
+    rr = None
+    if svc == "none":
+        blocking = rng.choice([None, None, True, False])
+    elif svc == "opt":
+        rr = rng.choice([None, True])
+        blocking = rng.choice([None, True]) if rr else rng.choice([None, True, False])
+    else:
+        rr = rng.choice([None, None, True])
+        blocking = rng.choice([None, None, True])
+    return ["call", {"svc": svc, "form": form, "rr": rr, "blocking": blocking}]
+
+
+def gen_waiters(rng: random.Random, funcs: list) -> list:
+    """Tasks that loop in task.wait_until on a target decorators (and the other waiter) listen on too."""
+    pool = [(d["kind"], d["target"]) for f in funcs for d in f["decs"]]
+    waiters = []
+    for wi in range(rng.choice([0, 0, 0, 1, 2, 2])):
+        roll = rng.random()
+        if waiters and roll < 0.6:
+            kind, target = waiters[0]["kind"], waiters[0]["target"]
+        elif roll < 0.9:
+            kind, target = rng.choice(pool)
+        else:
+            kind = rng.choice(["event", "mqtt", "webhook"])
+            target = {"event": rng.choice(EVENT_TYPES), "mqtt": rng.choice(TOPICS), "webhook": "hookw"}[kind]
+        flt = ["n", rng.choice([">", ">=", "<", "=="]), rng.randint(0, 3)] if rng.random() < 0.3 else None
+        waiters.append({"name": f"w{wi}", "kind": kind, "target": target, "filter": flt})
+    return waiters
+
+
 def gen(rng: random.Random, tier: str) -> dict:
     cfg = gen_cfg(rng)
+    # steer: half of the runs stay away from the constructs with recorded findings (see ASSUMPTIONS)
+    steer = rng.random() < 0.5
     funcs = []
     hook_n = 0
     for fi in range(rng.randint(1, 4)):
@@ -127,7 +210,7 @@ def gen(rng: random.Random, tier: str) -> dict:
             kw = {"dec": di}
             if rng.random() < 0.15:
                 kw["extra"] = rng.choice(["x", 5])
-            decs.append({"kind": kind, "target": target, "filter": gen_filter(rng, kind), "kwargs": kw})
+            decs.append({"kind": kind, "target": target, "filter": gen_filter(rng, kind, not steer), "kwargs": kw})
         body = []
         if rng.random() < 0.7:
             body.append(["sleep", rng.choice([0.1, 0.6, 2.0])])
@@ -137,18 +220,23 @@ def gen(rng: random.Random, tier: str) -> dict:
             body.append(["fire"])
         if rng.random() < 0.4:
             body.append(["set"])
-        if rng.random() < 0.4:
-            body.append(["call"])
+        if rng.random() < 0.45:
+            body.append(gen_call(rng))
         rng.shuffle(body)
         funcs.append({"name": f"f{fi}", "decs": decs, "body": body})
+    waiters = gen_waiters(rng, funcs)
     ops = []
     sid = 0
-    hooks = [d["target"] for f in funcs for d in f["decs"] if d["kind"] == "webhook"]
-    used_ev = [d["target"] for f in funcs for d in f["decs"] if d["kind"] == "event"] or EVENT_TYPES
+    listeners = [d for f in funcs for d in f["decs"]] + waiters
+    hooks = [d["target"] for d in listeners if d["kind"] == "webhook"]
+    used_ev = [d["target"] for d in listeners if d["kind"] == "event"] or EVENT_TYPES
+    xkeys = XKEYS_PLAIN if steer else XKEYS
     for _ in range(rng.randint(3, TIERS[tier]["max_ops"])):
         op = gen_delay(rng, burst_p=0.45)
         roll = rng.random()
         data = {"n": rng.randint(0, 3), "kind": rng.choice(KINDS)}
+        if roll >= 0.12 and roll < 0.35 and rng.random() < 0.1:
+            del data["kind"]  # MQTT / webhook payloads without the key as well: filters naming it raise
         if roll < 0.06:
             op.update({"kind": "stall", "s": rng.choice([0.01, 0.3, 1.5])})
         elif roll < 0.12 and sid > 0:
@@ -167,8 +255,10 @@ def gen(rng: random.Random, tier: str) -> dict:
             op.update({"kind": "fire", "type": etype, "data": dict(data, id=sid)})
             if rng.random() < 0.08:
                 del op["data"]["kind"]  # filters naming a missing key raise
+            if rng.random() < 0.03:
+                op["data"][rng.choice(xkeys)] = rng.choice(["v", 11])  # "arbitrary payloads": one more key
         ops.append(op)
-    return {"cfg": cfg, "spec": {"funcs": funcs}, "ops": ops}
+    return {"cfg": cfg, "spec": {"funcs": funcs, "waiters": waiters, "steer": steer}, "ops": ops}
 
 
 # ------------------------------------------------------------------ rendering
@@ -180,6 +270,31 @@ def _dec_src(dec: dict) -> str:
     return f"@{dec['kind']}_trigger({', '.join(args)})"
 
 
+def _call_opts(step: list) -> dict:
+    return dict(CALL_DEFAULT, **(step[1] if len(step) > 1 else {}))
+
+
+def _call_src(step: list, name: str) -> str:
+    opts = _call_opts(step)
+    args = [f"src={name!r}", "rid=rid", "dec=kw['dec']"]
+    if opts["rr"] is not None:
+        args.append(f"return_response={opts['rr']}")
+    if opts["blocking"] is not None:
+        args.append(f"blocking={opts['blocking']}")
+    svc = SVC_NAME[opts["svc"]]
+    if opts["form"] == "direct":
+        return f"test.{svc}({', '.join(args)})"
+    return f"service.call('test', {svc!r}, {', '.join(args)})"
+
+
+def _wait_src(waiter: dict) -> str:
+    if waiter["filter"] is None:
+        arg = repr(waiter["target"])
+    else:
+        arg = repr([waiter["target"], filter_src(waiter["filter"], waiter["kind"])])
+    return f"task.wait_until({waiter['kind']}_trigger={arg})"
+
+
 def render(scn: dict) -> dict:
     lines = []
     for func in scn["spec"]["funcs"]:
@@ -188,6 +303,7 @@ def render(scn: dict) -> dict:
         for dec in func["decs"]:
             lines.append(_dec_src(dec))
         name = func["name"]
+        # the keyword arguments go to the marker as one dictionary: whatever names the payload uses, they are data
         lines += [
             f"def {name}(**kw):",
             "    rid = kw.get('id')",
@@ -196,7 +312,7 @@ def render(scn: dict) -> dict:
             "        if p is None:",
             "            p = kw.get('payload')",
             "        rid = p['id']",
-            f"    sim.mark({name!r}, 'start', rid, **kw)",
+            f"    sim.mark({name!r}, 'start', rid, kw)",
         ]
         for step in func["body"]:
             if step[0] == "sleep":
@@ -209,18 +325,41 @@ def render(scn: dict) -> dict:
             elif step[0] == "set":
                 lines.append(f"    state.set('pyscript.out_{name}', str(rid), dec=kw['dec'])")
             elif step[0] == "call":
-                lines.append(f"    test.record(src={name!r}, rid=rid, dec=kw['dec'])")
+                lines.append(f"    {_call_src(step, name)}")
         lines.append(f"    sim.mark({name!r}, 'end', rid, dec=kw['dec'])")
         lines.append("")
+    for waiter in scn["spec"].get("waiters") or []:
+        name = waiter["name"]
+        lines += [
+            "@time_trigger('startup')",
+            f"def {name}():",
+            "    k = 0",
+            "    while True:",
+            "        k += 1",
+            f"        sim.mark({name!r}, 'wait', k)",
+            f"        got = {_wait_src(waiter)}",
+            f"        sim.mark({name!r}, 'got', k, got)",
+            "",
+        ]
     return {"pyscript/c08.py": "\n".join(lines) + "\n"}
 
 
 def normalize(scn: dict) -> dict | None:
     funcs = [f for f in scn["spec"]["funcs"] if f["decs"]]
-    if not funcs:
+    if not funcs and not scn["spec"].get("waiters"):
         return None
     scn["spec"]["funcs"] = funcs
     return scn
+
+
+def _strip_susp(flt):
+    if flt is None:
+        return None
+    if flt[0] == "susp":
+        return _strip_susp(flt[1])
+    if flt[0] == "and":
+        return ["and", _strip_susp(flt[1]), _strip_susp(flt[2])]
+    return flt
 
 
 def simplify(scn: dict):
@@ -230,12 +369,36 @@ def simplify(scn: dict):
             cand["ops"][i].pop("passes")
             cand["ops"][i]["dt"] = 0.25
             yield cand
+        if op["kind"] == "fire":
+            for key in sorted(set(op.get("data") or {}) - {"n", "kind", "id"}):
+                cand = copy.deepcopy(scn)
+                del cand["ops"][i]["data"][key]
+                yield cand
     for fi, func in enumerate(scn["spec"]["funcs"]):
         for di, dec in enumerate(func["decs"]):
             if dec["filter"] is not None:
                 cand = copy.deepcopy(scn)
                 cand["spec"]["funcs"][fi]["decs"][di]["filter"] = None
                 yield cand
+                if _suspends(dec["filter"]):
+                    cand = copy.deepcopy(scn)
+                    cand["spec"]["funcs"][fi]["decs"][di]["filter"] = _strip_susp(dec["filter"])
+                    yield cand
+        for bi, step in enumerate(func["body"]):
+            if step[0] == "call" and _call_opts(step) != CALL_DEFAULT:
+                cand = copy.deepcopy(scn)
+                cand["spec"]["funcs"][fi]["body"][bi] = ["call"]
+                yield cand
+                for key, val in CALL_DEFAULT.items():
+                    if _call_opts(step)[key] != val and not (key == "svc"):
+                        cand = copy.deepcopy(scn)
+                        cand["spec"]["funcs"][fi]["body"][bi] = ["call", dict(_call_opts(step), **{key: val})]
+                        yield cand
+    for wi, waiter in enumerate(scn["spec"].get("waiters") or []):
+        if waiter["filter"] is not None:
+            cand = copy.deepcopy(scn)
+            cand["spec"]["waiters"][wi]["filter"] = None
+            yield cand
     for key, val in (("timer_late_ms", 0.0), ("drift", 0.0), ("cost_us", 50), ("exec_latency_ms", [0.0, 0.0]),
                      ("set_order_salt", 0)):
         if scn["cfg"].get(key) != val:
@@ -255,6 +418,19 @@ def _topic_match(sub: str, topic: str) -> bool:
     return len(sp) == len(tp)
 
 
+def _mark_kw(mark: dict) -> tuple[dict, dict]:
+    """(normalised, raw) keyword arguments a 'start' / 'got' marker reports (4th positional; older scripts: **kw)."""
+    if len(mark["args"]) > 3 and isinstance(mark["raw_args"][3], dict):
+        return mark["args"][3], mark["raw_args"][3]
+    return mark["kw"], mark["raw_kw"]
+
+
+def _mark_dec(mark: dict):
+    if mark["args"][1] == "start":
+        return _mark_kw(mark)[1].get("dec")
+    return mark["raw_kw"].get("dec")
+
+
 def warmup() -> None:
     scn = gen(random.Random(1), "quick")
     scn["ops"] = scn["ops"][:2]
@@ -267,17 +443,35 @@ def run(scn: dict) -> dict:
     max_sleep = max([st[1] for f in spec["funcs"] for st in f["body"] if st[0] == "sleep"] + [0])
     cancelled: set = set()
     stim_ctx: dict = {}
+    stim_at: dict = {}
+
+    def mark_hook(rec):
+        rec["jumps"] = w.loop.jumps
+        rec["idx"] = len(w.marks) - 1
+
+    w.mark_hook = mark_hook
 
     async def driver(w: World):
-        from homeassistant.core import Context, callback
+        from homeassistant.core import Context, SupportsResponse, callback
 
         records = w.natives.setdefault("records", [])
 
-        @callback
-        def record(call):
-            records.append({"data": dict(call.data), "ctx": call.context, "vt": w.loop.vt})
+        def recorder(svc):
+            @callback
+            def record(call):
+                records.append({"svc": svc, "data": dict(call.data), "ctx": call.context, "vt": w.loop.vt,
+                                "rr": call.return_response})
+                if call.return_response:
+                    return {"svc": svc, "rid": call.data.get("rid")}
+                return None
 
-        w.hass.services.async_register("test", "record", record)
+            return record
+
+        w.hass.services.async_register("test", "record", recorder("record"))
+        w.hass.services.async_register("test", "record_opt", recorder("record_opt"),
+                                       supports_response=SupportsResponse.OPTIONAL)
+        w.hass.services.async_register("test", "record_only", recorder("record_only"),
+                                       supports_response=SupportsResponse.ONLY)
         w.natives["native_add"] = lambda a, b: a + b
         await w.started()
         burst = 0
@@ -288,31 +482,64 @@ def run(scn: dict) -> dict:
             burst += 1
             if burst == 3:
                 w.probe("burst3")
+            here = {"nmarks": len(w.marks), "iter": w.loop.iterations, "jumps": w.loop.jumps, "burst": burst,
+                    "t": w.vts()}
             if op["kind"] == "fire":
                 ctx = Context()
                 stim_ctx[op["data"]["id"]] = ctx
+                stim_at[op["data"]["id"]] = here
                 w.fire(op["type"], op["data"], context=ctx)
             elif op["kind"] == "cancel_run":
                 for mark in w.marks:
                     if mark["args"][1:3] == ["start", op["sid"]] and not mark["task_obj"].done():
-                        key = (mark["args"][0], mark["raw_kw"].get("dec"), op["sid"])
+                        key = (mark["args"][0], _mark_dec(mark), op["sid"])
                         if key not in cancelled:
                             cancelled.add(key)
                             mark["task_obj"].cancel()
                             w.fault("cancel_run")
                             w.probe("run_cancelled")
             else:
+                if op["kind"] == "mqtt":
+                    stim_at[json.loads(op["payload"])["id"]] = here
+                elif op["kind"] == "webhook":
+                    stim_at[op["payload"]["id"]] = here
                 await apply_common(w, op)
         await w.settle(max_sleep + 1.0)
         await w.settle(0.5)
 
     w.run(driver)
-    violations, nontrivial, extra = oracle(w, scn, cancelled, stim_ctx)
+    violations, nontrivial, extra = oracle(w, scn, cancelled, stim_ctx, stim_at)
     return base_result(w, violations, nontrivial, extra)
 
 
-def oracle(w: World, scn: dict, cancelled: set, stim_ctx: dict):
+def _matches(listener: dict, st: dict) -> bool:
+    if st["kind"] != listener["kind"]:
+        return False
+    if listener["kind"] == "mqtt":
+        return _topic_match(listener["target"], st["target"])
+    return st["target"] == listener["target"]
+
+
+def _exp_args(kind: str, st: dict) -> dict:
+    if kind == "event":
+        return {"trigger_type": "event", "event_type": st["target"], **st["data"]}
+    if kind == "mqtt":
+        return {"trigger_type": "mqtt", "topic": st["target"], "payload": st["payload"], "qos": 0,
+                "retain": False, "payload_obj": st["data"]}
+    return {"trigger_type": "webhook", "webhook_id": st["target"], "payload": st["data"]}
+
+
+def _xkey(st: dict):
+    """The additional payload key of an event stimulus (None: it has none)."""
+    if st["kind"] != "event":
+        return None
+    more = sorted(set(st["data"]) - {"n", "kind", "id"})
+    return more[0] if more else None
+
+
+def oracle(w: World, scn: dict, cancelled: set, stim_ctx: dict, stim_at: dict | None = None):
     sub = "legacy" if w.cfg["legacy"] else "new"
+    stim_at = stim_at or {}
     violations = []
     stimuli = []  # in order
     for op in scn["ops"]:
@@ -328,9 +555,14 @@ def oracle(w: World, scn: dict, cancelled: set, stim_ctx: dict):
     starts: dict = {}
     ends: dict = {}
     execs: dict = {}
+    waiter_marks: dict = {}
+    waiter_names = {wt["name"] for wt in scn["spec"].get("waiters") or []}
     for mark in w.marks:
         fname, what, rid = mark["args"][0], mark["args"][1], mark["args"][2]
-        di = mark["raw_kw"].get("dec")
+        if fname in waiter_names:
+            waiter_marks.setdefault(fname, []).append(mark)
+            continue
+        di = _mark_dec(mark)
         if what == "start":
             starts.setdefault((fname, di), []).append((rid, mark))
         elif what == "end":
@@ -340,18 +572,23 @@ def oracle(w: World, scn: dict, cancelled: set, stim_ctx: dict):
     targets: dict = {}
     n_overlap = 0
     for func in scn["spec"]["funcs"]:
+        # an additional payload key handed to this function earlier (any decorator): part of the signature of a loss
+        func_xkeys = []
+        for st in stimuli:
+            if _xkey(st) is not None and any(_matches(d, st) and (d["filter"] is None
+                                                                  or filter_eval(d["filter"], st["data"])[0])
+                                             for d in func["decs"]):
+                func_xkeys.append((st["sid"], _xkey(st)))
+        func_ran = {rid for (fname, _di), lst in starts.items() if fname == func["name"] for rid, _ in lst}
         for dec in func["decs"]:
             di = dec["kwargs"]["dec"]
             targets.setdefault((dec["kind"], dec["target"]), set()).add(func["name"])
             expected = []
+            matching = []
             for st in stimuli:
-                if st["kind"] != dec["kind"]:
+                if not _matches(dec, st):
                     continue
-                if dec["kind"] == "mqtt":
-                    if not _topic_match(dec["target"], st["target"]):
-                        continue
-                elif st["target"] != dec["target"]:
-                    continue
+                matching.append(st)
                 if dec["filter"] is not None:
                     ok, raised = filter_eval(dec["filter"], st["data"])
                     if raised:
@@ -360,11 +597,20 @@ def oracle(w: World, scn: dict, cancelled: set, stim_ctx: dict):
                         w.probe("filter_rejected")
                         continue
                 expected.append(st)
+            if _suspends(dec["filter"]) and any(stim_at.get(st["sid"], {}).get("burst", 1) > 1 for st in matching):
+                w.probe("suspending_filter_burst")
             got = starts.get((func["name"], di), [])
             got_ids = [rid for rid, _ in got]
             exp_ids = [st["sid"] for st in expected]
             desc = f"{func['name']} dec {di} [{_dec_src(dec)}]"
             sig = {"subsystem": sub, "trigger": dec["kind"]}
+            if _suspends(dec["filter"]):
+                sig["filter"] = "suspends"
+            for st in expected:
+                if _xkey(st) is not None:
+                    w.probe("payload_extra_key")
+                    if st["sid"] in got_ids:
+                        w.probe("payload_extra_key_delivered")
             if got_ids != exp_ids:
                 missing = [i for i in exp_ids if i not in got_ids]
                 extra_ids = [i for i in got_ids if i not in exp_ids]
@@ -374,8 +620,29 @@ def oracle(w: World, scn: dict, cancelled: set, stim_ctx: dict):
                     violations.append({"class": "C08.duplicated", "sig": sig, "t": t_first,
                                        "detail": f"{desc}: stimuli {dups} ran more than once; got {got_ids} expected {exp_ids}"})
                 if missing:
-                    violations.append({"class": "C08.lost", "sig": sig, "t": t_first,
-                                       "detail": f"{desc}: stimuli {missing} never ran; got {got_ids} expected {exp_ids}"})
+                    # the payload shape is part of the signature: a message with one more key / a message after one
+                    with_key = [i for i in missing if _xkey(by_sid[i]) is not None]
+                    plain = [i for i in missing if _xkey(by_sid[i]) is None]
+
+                    def t_of(ids):
+                        return stim_at.get(ids[0], {}).get("t", t_first)
+
+                    if with_key:
+                        keys = [_xkey(by_sid[i]) for i in with_key]
+                        violations.append({"class": "C08.lost_payload_key", "sig": {**sig, "payload_key": keys[0]},
+                                           "t": t_of(with_key),
+                                           "detail": f"{desc}: stimuli {with_key} (event data with the additional "
+                                                     f"key(s) {keys}) never ran; got {got_ids} expected {exp_ids}"})
+                    if plain:
+                        lsig = dict(sig)
+                        # a message with an additional key was handed to this function before and got lost
+                        before = [k for s_id, k in func_xkeys if s_id < plain[0] and s_id not in func_ran]
+                        if before:
+                            lsig["after_lost_payload_key"] = True
+                        violations.append({"class": "C08.lost", "sig": lsig, "t": t_of(plain),
+                                           "detail": f"{desc}: stimuli {plain} never ran; got {got_ids} expected {exp_ids}"
+                                                     + (f" (after the lost message(s) with key(s) {before})" if before
+                                                        else "")})
                 if extra_ids:
                     violations.append({"class": "C08.spurious", "sig": sig, "t": t_first,
                                        "detail": f"{desc}: stimuli {sorted(set(extra_ids))} ran but do not match; "
@@ -394,15 +661,9 @@ def oracle(w: World, scn: dict, cancelled: set, stim_ctx: dict):
                     violations.append({"class": "C08.shared_task", "sig": sig, "t": mark["t"],
                                        "detail": f"{desc}: run for stimulus {rid} is not in its own task"})
                 seen_tasks.add(mark["task"])
-                if dec["kind"] == "event":
-                    exp_kw = {"trigger_type": "event", "event_type": st["target"], **st["data"]}
-                elif dec["kind"] == "mqtt":
-                    exp_kw = {"trigger_type": "mqtt", "topic": st["target"], "payload": st["payload"], "qos": 0,
-                              "retain": False, "payload_obj": st["data"]}
-                else:
-                    exp_kw = {"trigger_type": "webhook", "webhook_id": st["target"], "payload": st["data"]}
+                exp_kw = _exp_args(dec["kind"], st)
                 exp_kw.update(dec["kwargs"])
-                got_kw = {k: v for k, v in mark["kw"].items() if k != "context"}
+                got_kw = {k: v for k, v in _mark_kw(mark)[0].items() if k != "context"}
                 if got_kw != w.norm(exp_kw):
                     violations.append({"class": "C08.wrong_kwargs", "sig": sig, "t": mark["t"],
                                        "detail": f"{desc}: stimulus {rid} kwargs {got_kw} != {w.norm(exp_kw)}"})
@@ -431,8 +692,96 @@ def oracle(w: World, scn: dict, cancelled: set, stim_ctx: dict):
     for (kind, _target), names in targets.items():
         if len(names) > 1:
             w.probe("same_type_two_functions")
+    n_got = _check_waiters(w, scn, stimuli, stim_at, waiter_marks, targets, violations, sub)
     violations.sort(key=lambda v: v.get("t", 0.0))
-    return violations, n_overlap >= 2, {"stimuli": len(stimuli), "runs": sum(len(v) for v in starts.values())}
+    return violations, n_overlap >= 2, {"stimuli": len(stimuli), "runs": sum(len(v) for v in starts.values()),
+                                        "waiter_returns": n_got}
+
+
+def _check_waiters(w: World, scn: dict, stimuli: list, stim_at: dict, waiter_marks: dict, targets: dict,
+                   violations: list, sub: str) -> int:
+    """The task.wait_until listeners: nothing but qualifying messages, once, in order, with their arguments; and
+    the first qualifying message after the task demonstrably entered the call must be handed to it."""
+    waiters = scn["spec"].get("waiters") or []
+    n_got = 0
+    seen_targets = set()
+    for waiter in waiters:
+        name = waiter["name"]
+        key = (waiter["kind"], waiter["target"])
+        if key in targets:
+            w.probe("waiter_shares_target_with_decorator")
+        if key in seen_targets:
+            w.probe("two_waiters_same_target")
+        seen_targets.add(key)
+        sig = {"subsystem": sub, "trigger": waiter["kind"], "listener": "wait_until"}
+        desc = f"{name} [{_wait_src(waiter)}]"
+        qualifying = []
+        for st in stimuli:
+            if not _matches(waiter, st):
+                continue
+            if waiter["filter"] is not None and not filter_eval(waiter["filter"], st["data"])[0]:
+                continue
+            qualifying.append(st)
+        q_ids = [st["sid"] for st in qualifying]
+        marks = waiter_marks.get(name, [])
+        gots = []
+        for mark in marks:
+            if mark["args"][1] != "got":
+                continue
+            norm_kw, raw_kw = _mark_kw(mark)
+            if waiter["kind"] == "event":
+                rid = raw_kw.get("id")
+            else:
+                rid = (raw_kw.get("payload_obj" if waiter["kind"] == "mqtt" else "payload") or {}).get("id")
+            gots.append((rid, mark, norm_kw))
+        n_got += len(gots)
+        got_ids = [g[0] for g in gots]
+        t_first = gots[0][1]["t"] if gots else 0.0
+        dups = sorted({i for i in got_ids if got_ids.count(i) > 1}, key=repr)
+        extra_ids = sorted({i for i in got_ids if i not in q_ids}, key=repr)
+        if dups:
+            violations.append({"class": "C08.duplicated", "sig": sig, "t": t_first,
+                               "detail": f"{desc}: messages {dups} were returned more than once; got {got_ids}"})
+        if extra_ids:
+            violations.append({"class": "C08.spurious", "sig": sig, "t": t_first,
+                               "detail": f"{desc}: returned for {extra_ids}, which do not qualify; got {got_ids}, "
+                                         f"qualifying {q_ids}"})
+        if not dups and not extra_ids and got_ids != [i for i in q_ids if i in got_ids]:
+            violations.append({"class": "C08.reordered", "sig": sig, "t": t_first,
+                               "detail": f"{desc}: got {got_ids}, arrival order {q_ids}"})
+        for rid, mark, norm_kw in gots:
+            w.probe("waiter_got")
+            if rid not in q_ids:
+                continue
+            st = qualifying[q_ids.index(rid)]
+            got_kw = {k: v for k, v in norm_kw.items() if k != "context"}
+            if got_kw != w.norm(_exp_args(waiter["kind"], st)):
+                violations.append({"class": "C08.wrong_kwargs", "sig": sig, "t": mark["t"],
+                                   "detail": f"{desc}: message {rid} returned as {got_kw} != "
+                                             f"{w.norm(_exp_args(waiter['kind'], st))}"})
+        # ---- which messages it had to see
+        prev_q_at = -1
+        for st in qualifying:
+            at = stim_at.get(st["sid"])
+            if at is None:
+                continue
+            before = [m for m in marks if m["idx"] < at["nmarks"]]
+            last = before[-1] if before else None
+            first_since = last is not None and prev_q_at <= last["idx"]
+            prev_q_at = at["nmarks"]
+            if last is None or last["args"][1] != "wait" or not first_since:
+                if st["sid"] not in got_ids:
+                    w.probe("waiter_missed_between_calls")
+                continue
+            if not (at["jumps"] > last["jumps"] or at["iter"] - last["iter"] >= WAIT_MIN_PASSES):
+                continue
+            w.probe("waiter_delivery_required")
+            if st["sid"] not in got_ids:
+                violations.append({"class": "C08.lost", "sig": sig, "t": last["t"],
+                                   "detail": f"{desc}: was waiting (call no. {last['args'][2]} announced at "
+                                             f"t={last['t']}) when message {st['sid']} arrived, but was never handed "
+                                             f"it; got {got_ids}, qualifying {q_ids}"})
+    return n_got
 
 
 def _check_outputs(w: World, func: dict, dec: dict, rid: int, trig_ctx, violations: list, sig: dict, desc: str):
@@ -442,12 +791,13 @@ def _check_outputs(w: World, func: dict, dec: dict, rid: int, trig_ctx, violatio
 
     def check_ctx(what, ctx, t):
         if trig_ctx is None:
-            return
+            return False
         w.probe("ctx_parent_checked")
         if ctx is None or ctx.parent_id != trig_ctx:
             violations.append({"class": "C08.context_parent", "sig": {**sig, "output": what}, "t": t,
                                "detail": f"{desc}: {what} of the run for stimulus {rid} has context parent "
                                          f"{getattr(ctx, 'parent_id', None)!r}, expected the triggering event's context"})
+        return True
 
     if "fire" in kinds:
         outs = [e for e in w.bus_events if e["type"] == "out_ev" and e["data"].get("rid") == rid
@@ -464,11 +814,26 @@ def _check_outputs(w: World, func: dict, dec: dict, rid: int, trig_ctx, violatio
                 and e["data"]["new_state"].state == str(rid) and e["data"]["new_state"].attributes.get("dec") == di]
         if outs:  # an identical re-set emits no event; only judge what was emitted
             check_ctx("state.set", outs[0]["ctx"], outs[0]["t"])
-    if "call" in kinds:
+    for step in func["body"]:
+        if step[0] != "call":
+            continue
+        opts = _call_opts(step)
+        svc = SVC_NAME[opts["svc"]]
+        if opts["svc"] == "only" and opts["rr"] is None:
+            w.probe("call_response_only_implicit")
+        if opts["rr"]:
+            w.probe("call_response_explicit")
+        if opts["form"] != "direct":
+            w.probe("call_via_service_call")
+        if opts["blocking"] is False:
+            w.probe("call_nonblocking")
         recs = [r for r in w.natives.get("records", []) if r["data"] == {"src": name, "rid": rid, "dec": di}]
-        if len(recs) != 1:
+        if len(recs) != 1 or recs[0].get("svc", svc) != svc:
             violations.append({"class": "C08.service_call", "sig": sig, "t": 0.0,
-                               "detail": f"{desc}: service call for stimulus {rid} delivered {len(recs)} times "
-                                         f"with the given parameters"})
+                               "detail": f"{desc}: service call {_call_src(step, name)} for stimulus {rid} delivered "
+                                         f"{len(recs)} times with the given parameters "
+                                         f"(to {[r.get('svc') for r in recs]})"})
         else:
-            check_ctx("service call", recs[0]["ctx"], recs[0]["vt"] - w.clock.vt0)
+            what = "service call" if opts["svc"] == "none" else f"service call ({opts['svc']} response)"
+            if check_ctx(what, recs[0]["ctx"], recs[0]["vt"] - w.clock.vt0) and opts["svc"] == "only":
+                w.probe("ctx_parent_checked_response_only")
